@@ -460,6 +460,42 @@ def main(argv):
                     cl = [x.strip() for x in t if '@prop' in x and prop in x]
                     for c in cl[:2]:
                         samples.append({'function': dir_name(d), 'clause': c[:300]})
+    # ---- thorough tier: replay the witness scripts of this property on the real server, re-verify under other solver seeds
+    witness_runs = []
+    seed_runs = []
+    if tier == 'thorough' and not violations and not undecided:
+        wd = os.path.join(VERIF, 'replay', 'witness')
+        known_w = {f.get('witness') for f in known['findings']}
+        for wp in sorted(glob.glob(os.path.join(wd, '*.json'))):
+            w = json.load(open(wp))
+            if prop not in w.get('properties', []):
+                continue
+            w['path'] = wp
+            rr = run_replay(w)
+            rel = os.path.relpath(wp, VERIF)
+            witness_runs.append({'witness': rel, 'reproduced': rr.get('reproduced'), 'known_finding': rel in known_w})
+            if rr.get('reproduced') and rel not in known_w:
+                violations.append(('replay', {'fn': w.get('function', '?'), 'kind': 'witness replay reproduces on the real server',
+                                              'clause': w.get('what', ''), 'site': rel, 'rendered': rr.get('output', ''), 'tags': [prop],
+                                              'props': [prop], 'panic_kind': False, 'replayed': True}))
+        # solver-seed sweep (information only: a proof that fails under another seed is brittle, not a violation)
+        try:
+            import tempfile
+            sd = tempfile.mkdtemp(prefix='verif_seeds_', dir='/var/tmp')
+            for u in own_units:
+                pth, _ = extract.build_unit(world(u), u, sd)
+                for sdv in (1 + seed, 2 + seed):
+                    cmd = [VERUS, pth, '--output-json', '--triggers-mode', 'silent', '--rlimit', str(rlimit), '--num-threads', '4',
+                           '--smt-option', 'smt.random_seed=%d' % sdv]
+                    pr = subprocess.run(cmd, capture_output=True, text=True, cwd=sd, env=cargo_env())
+                    try:
+                        vr = json.loads(pr.stdout)['verification-results']
+                        seed_runs.append({'unit': u, 'seed': sdv, 'verified': vr.get('verified'), 'errors': vr.get('errors')})
+                    except Exception:
+                        seed_runs.append({'unit': u, 'seed': sdv, 'verified': None, 'errors': None})
+            subprocess.run(['rm', '-rf', sd])
+        except Exception as e:  # never let the sweep decide anything
+            seed_runs.append({'error': str(e)})
     wall = time.time() - t0
     status = 0
     out_lines = []
@@ -484,7 +520,7 @@ def main(argv):
             rec['replay_result'] = replayed
         with open(rp, 'w') as f:
             json.dump(rec, f, indent=1)
-        suffix = '' if (replayed and replayed.get('reproduced')) else ' no-failing-input-found'
+        suffix = '' if ((replayed and replayed.get('reproduced')) or any(e.get('replayed') for _, e in violations)) else ' no-failing-input-found'
         for u, e in violations[:10]:
             out_lines.append('FAILED-OBLIGATION property=%s unit=%s fn=%s kind="%s" clause="%s" site="%s"' % (
                 prop, u, e['fn'], e['kind'], e['clause'][:120], e['site'][:120]))
@@ -513,6 +549,8 @@ def main(argv):
         'wall_s': round(wall, 2),
         'violations': len(violations),
         'known_findings_reported': [h['what'] for h, _ in known_hits],
+        'witness_replays': witness_runs,
+        'solver_seed_sweep': seed_runs,
         'undecided': undecided,
     }
     os.makedirs(os.path.join(VERIF, 'evidence'), exist_ok=True)
